@@ -117,6 +117,8 @@ func Base(d string) gm.Schema {
 			gm.Index{Name: "idx_users_score", Parts: []gm.Part{{Col: "score"}}, Where: `("score" > 0)`, Include: []string{"age"}, Type: "BTREE"},
 			// an operator class written out although it is the default one for the column's type
 			gm.Index{Name: "idx_users_bio", Parts: []gm.Part{{Col: "bio", OpClass: "text_ops"}}})
+		// a column of a type Atlas does not know (an extension type)
+		s.Tables[1].Cols = append(s.Tables[1].Cols, gm.Col{Name: "aext", Type: "citext", Null: true})
 	case "sqlite":
 		s.Tables[0].Indexes = append(s.Tables[0].Indexes, gm.Index{Name: "idx_users_score", Parts: []gm.Part{{Col: "score"}}, Where: `"score" > 0`})
 		s.Tables[3].WithoutRowID = true
@@ -406,6 +408,9 @@ func AllSites(d string, s gm.Schema) []Site {
 			if c.Default == "" && c.Charset == "" { // an integer column cannot keep a CHARSET
 				add(EditRef{Kind: "modify-type", Table: T, Obj: cn, Arg: newType}, key)
 			}
+			if d == "postgres" && c.Type == "citext" {
+				add(EditRef{Kind: "modify-type", Table: T, Obj: cn, Arg: "ltree"}, key) // from one unknown type to another
+			}
 			switch {
 			case strings.HasPrefix(c.Default, "'"):
 				add(EditRef{Kind: "modify-default", Table: T, Obj: cn, Arg: "'changed'"}, key)
@@ -555,6 +560,10 @@ func AllSites(d string, s gm.Schema) []Site {
 		case "mysql":
 			if t.Engine != "" {
 				add(EditRef{Kind: "table-engine", Table: T, Arg: "InnoDB"}, T+".attr:engine")
+			} else {
+				// the default engine written out on a table that had none stated: no change; any other engine: one
+				add(EditRef{Kind: "table-engine-stated", Table: T, Arg: "InnoDB"}, T+".attr:engine")
+				add(EditRef{Kind: "table-engine-stated", Table: T, Arg: "MyISAM"}, T+".attr:engine")
 			}
 			if t.AutoIncStart > 0 {
 				add(EditRef{Kind: "table-autoinc", Table: T}, T+".attr:autoinc")
